@@ -21,7 +21,23 @@ def main():
             data = json.load(open(a.replay))
             rc = mod.replay(ctx, data)
         else:
-            rc = mod.run(ctx)
+            try:
+                rc = mod.run(ctx)
+            except Exception as e:
+                # the harness could not drive the tree under test to the end (the code raised somewhere the harness
+                # does not expect, a layer lost a method the rig calls, ...): the tie between model and code is
+                # broken; reported as such, never as a bare traceback
+                import traceback
+                tb = traceback.format_exc()
+                sys.stderr.write(tb)
+                frames = [l.strip() for l in tb.splitlines() if l.strip().startswith("File ")]
+                ctx.tie_broken_without_input("harness:unhandled-exception",
+                                             {"exception": "%s: %s" % (type(e).__name__, e),
+                                              "innermost_frames": frames[-4:]})
+                ctx.ties["harness"] = "broken: %s: %s" % (type(e).__name__, e)
+                ctx.notes.append("the check's harness raised before finishing; coverage figures are partial")
+                rc = ctx.finish(rule="incomplete run: the harness raised %s" % type(e).__name__,
+                                assumptions_text=list(getattr(mod, "ASSUME", [])))
     finally:
         shutil.rmtree(scratch, ignore_errors=True)
     sys.exit(rc)
